@@ -164,7 +164,12 @@ class Node:
                     item = (source, sub.id, sub.counter, tuple(sorted((str(e.address), e.port) for e in sub.endpoints)))
                     node._ev(node.sv_events, si, "unsubscribed", item, "subscribed", mine)
 
-            opt = H.IPv4EndpointOption(address=ipaddress.IPv4Address(self.addr[0]), l4proto=H.L4Protocols.UDP, port=3000 + si)
+            # another endpoint in every incarnation: an offer must carry what is configured now
+            port = 3000 + si + 100 * (self.incarnation % 5)
+            proto = (H.L4Protocols.UDP, H.L4Protocols.TCP)[self.incarnation % 2]
+            opt = H.IPv4EndpointOption(address=ipaddress.IPv4Address(self.addr[0]), l4proto=proto, port=port)
+            self.offer_cfg = getattr(self, "offer_cfg", {})
+            self.offer_cfg[(s[0], s[1])] = (s[2], s[3], (self.addr[0], port, int(proto)))
             svc = C.Service(s[0], s[1], s[2], s[3], options_1=(opt,), eventgroups=frozenset(s[4]))
             self.instances[si] = S.ServiceInstance(svc, L(), self.prot.announcer, self.tm)
         self.prot.announcer.announce_service(self.instances[si])
@@ -499,6 +504,15 @@ class OfferLifeMonitor(Monitor):
         def queue_send(entry, remote=None):
             if int(entry.sd_type) == 1:
                 log.append((w.h.loop.time(), remote, (entry.service_id, entry.instance_id), entry.ttl))
+                cfg = getattr(node, "offer_cfg", {}).get((entry.service_id, entry.instance_id))
+                if cfg is not None and entry.ttl > 0:
+                    w.stats["offer_contents_checked"] += 1
+                    got = [(str(o.address), o.port, int(o.l4proto)) for o in entry.options_1]
+                    if (entry.major_version, entry.minver_or_counter, got, tuple(entry.options_2), entry.ttl) != \
+                            (cfg[0], cfg[1], [cfg[2]], (), w.cfg["a_ttl"]):
+                        w.fail("offer-content-differs-from-configuration", node,
+                               dict(service=(entry.service_id, entry.instance_id), configured=cfg, ttl=w.cfg["a_ttl"],
+                                    queued=(entry.major_version, entry.minver_or_counter, got, entry.ttl)))
             return orig(entry, remote=remote)
 
         ann.queue_send = queue_send
